@@ -97,8 +97,8 @@ def cases(tier, seed):
             for op in ops:
                 if not applicable(op, len(shape)):
                     continue
-                if op.get('composed') and tier == 'quick' and hash_name(op['name']) % 6:
-                    continue        # quick: every sixth composition (all of them in thorough)
+                if op.get('composed') and hash_name(op['name']) % (6 if tier == 'quick' else 2):
+                    continue        # quick: every sixth composition, thorough: every second
                 kind = op['kind']
                 rs = rs_all
                 if op['inplace'] and not op.get('replaces_storage'):
@@ -241,7 +241,7 @@ def main():
                     'receiver identity for in-place forms, unchanged operands and the representation invariant of every PatternedTensor constructed inside the library '
                     '(harness-side __post_init__ wrapper: sizes agree, paxes distinct = free axes, index map injective) are checked on every path.',
         bounds={'shapes': 'quick (),(2,),(3,),(2,2),(2,3); thorough up to rank 3 / numel 8', 'physical_elements': '<=6 quick / <=8 thorough',
-                'type_depth': 1, 'compositions': 'two-step compositions: 14 first operations x 21 second operations on num tensors (every sixth in quick)'},
+                'type_depth': 1, 'compositions': 'two-step compositions: 14 first operations x 21 second operations on num tensors (every sixth in quick, every second in thorough)'},
         assumptions=['finite floats are exact reals', 'dense reference kernels are the model\'s own (validated against torch by running the repository test-suite on the model and by replay)',
                      'exp/expm1/logaddexp/log_softmax use log-domain elements, log/log1p non-negative elements (representation by exponential)',
                      'tolist/len use concrete element values (float() is a C boundary)'],
